@@ -161,7 +161,21 @@ class Sim:
                 s = bst.get(k) if (k[0] in tb or k[1] in tb) else model.bstereo.get(k)
                 if s is not None:
                     eb[k] = s
-        r = rebuild(mol, model, ea, eb)
+        try:
+            r = rebuild(mol, model, ea, eb)
+        except Exception as e:
+            from chython.exceptions import ImplementationError
+            if isinstance(e, ImplementationError):
+                raise Discard(f'ImplementationError in rebuild: {e}')
+            raise
+        # domain: chython's label book-keeping maps an atom to one stereogenic double-bond unit; hypervalent
+        # junction atoms that belong to two units (C=C(=C)...) are outside what the labels can represent
+        seen_units = {}
+        for path in r.stereogenic_cumulenes:
+            if len(path) % 2 == 0:
+                for x in (path[0], path[-1], path[len(path) // 2], path[len(path) // 2 - 1]):
+                    if seen_units.setdefault(x, path) != path:
+                        raise Discard('overlapping stereogenic double-bond units')
         rast, rbst = stereo_of(r)
         if ast != rast or bst != rbst:
             da = {n: (ast.get(n), rast.get(n)) for n in set(ast) | set(rast) if ast.get(n) != rast.get(n)}
@@ -172,11 +186,18 @@ class Sim:
         rng.shuffle(names)
         if self.cfg.get('obs_limit'):
             names = names[:self.cfg['obs_limit']]
+        bad = []
         for name in names:
             v1 = observe(mol, name)
             v2 = observe(r, name)
             if v1 != v2:
-                raise Violation(f'derived-mismatch:{name}', f'{where} mol={_short(v1)} rebuilt={_short(v2)}')
+                bad.append((OBS_INDEX[name], name, v1, v2))
+        if bad:
+            # all observers are evaluated in the seeded order; the report names the first mismatching one in the
+            # fixed catalogue order so that one root cause gives one violation class
+            _, name, v1, v2 = min(bad)
+            raise Violation(f'derived-mismatch:{name}', f'{where} mol={_short(v1)} rebuilt={_short(v2)} '
+                                                        f'(also: {[b[1] for b in sorted(bad)][1:8]})')
         try:
             eq = (mol == r)
         except Exception as e:
